@@ -265,7 +265,61 @@ func (p *c07) Init(tier string, seed int64) {
 	p.nRand = p.pick(30000, 400000)
 }
 
-func (p *c07) N() int { return p.nRand + c07Rec }
+func (p *c07) N() int { return p.nRand + c07Rec + c07Child }
+
+// c07Child: assignments at the top level of a template that extends a layout. They are template-level
+// assignments like any other: visible to everything rendered afterwards - the child's own blocks and the layout
+// around them - and overwritten by a later assignment to the same name further up the chain.
+const c07Child = 3 * 2 * 3 * 3
+
+func c07ChildCase(j int) (*Program, string) {
+	ca := j % 3 // child: a not set / set / captured
+	j /= 3
+	cb := j % 2 // child: b not set / set
+	j /= 2
+	la := j % 3 // layout: a not set / set before the block / set after the block
+	j /= 3
+	mid := j % 3 // no middle template / one that sets nothing / one that sets a
+	ts := map[string]*gen.Template{}
+	var lay []gen.Node
+	lay = append(lay, tx("LAY("), c07Probe("lay-start"))
+	if la == 1 {
+		lay = append(lay, &gen.NSet{Name: "a", X: str("lay-a")})
+	}
+	lay = append(lay, &gen.NBlock{Name: "body", Body: []gen.Node{tx("lay-body"), c07Probe("lay-body")}})
+	if la == 2 {
+		lay = append(lay, &gen.NSet{Name: "a", X: str("lay-a")})
+	}
+	lay = append(lay, c07Probe("lay-end"), tx(")"))
+	ts["lay"] = tpl("lay", lay...)
+	parent := "lay"
+	if mid > 0 {
+		body := []gen.Node{&gen.NExtends{Tpl: str("lay")}}
+		if mid == 2 {
+			body = append(body, &gen.NSet{Name: "a", X: str("mid-a")}, &gen.NSet{Name: "c", X: str("mid-c")})
+		}
+		ts["mid"] = tpl("mid", body...)
+		parent = "mid"
+	}
+	child := []gen.Node{&gen.NExtends{Tpl: str(parent)}}
+	switch ca {
+	case 1:
+		child = append(child, &gen.NSet{Name: "a", X: str("child-a")})
+	case 2:
+		child = append(child, &gen.NSetCap{Name: "a", Body: []gen.Node{tx("child-"), pr(str("cap")), tx("-a")}})
+	}
+	if cb == 1 {
+		child = append(child, &gen.NSet{Name: "b", X: &gen.EBin{Op: "~", L: str("child-b-sees-a="), R: nm("a")}})
+	}
+	child = append(child, &gen.NBlock{Name: "body", Body: []gen.Node{tx("child-body"), c07Probe("child-body"),
+		&gen.NSet{Name: "d", X: str("set-in-block")}, c07Probe("child-body-end")}})
+	ts["main"] = tpl("main", child...)
+	ctx := map[string]interface{}{}
+	if j%2 == 1 {
+		ctx["a"] = "ctx-a"
+	}
+	return &Program{Templates: ts, Main: "main", Ctx: ctx}, fmt.Sprintf("child/a=%d/b=%d/lay=%d/mid=%d", ca, cb, la, mid)
+}
 
 // c07Rec terminating recursive macros (shared with C11): each activation sees its own parameters again after
 // the inner call has ended.
@@ -300,6 +354,12 @@ func (p *c07) build(i int) (*Program, *c07gen) {
 }
 
 func (p *c07) Describe(i int) interface{} {
+	if i >= p.nRand+c07Rec {
+		prog, sig := c07ChildCase(i - p.nRand - c07Rec)
+		d := prog.describe()
+		d["case"] = sig
+		return d
+	}
 	if i >= p.nRand {
 		prog, sig := (&c11{}).buildRec(i - p.nRand)
 		d := prog.describe()
@@ -313,6 +373,12 @@ func (p *c07) Describe(i int) interface{} {
 }
 
 func (p *c07) Run(i int) (res fw.Result) {
+	if i >= p.nRand+c07Rec {
+		prog, sig := c07ChildCase(i - p.nRand - c07Rec)
+		modelCase(&res, "c07:"+sig, prog, gen.Canon{}, false)
+		res.UniqueNT = 1
+		return
+	}
 	if i >= p.nRand {
 		prog, sig := (&c11{}).buildRec(i - p.nRand)
 		modelCase(&res, "c07:"+sig, prog, gen.Canon{}, false)
@@ -333,7 +399,7 @@ func (p *c07) Run(i int) (res fw.Result) {
 }
 
 func (p *c07) Rule() string {
-	return "cases: seeded nestings (depth<=4) of set, set-capture, for (with and without key), if, filter sections and macro calls over a 4-name pool (a,b,c,d; some also given by the context, some holding null, false, 0 or the empty string) so that collisions between loop variables, macro parameters and outer variables are the norm. After every statement, at the start of every loop body and macro body, a probe prints which pool names are visible and their values, and (outside macro bodies) the complete sorted list of names the scope holds, so that nothing can be defined on the side (a registered function reading Context.Scope(), mirrored by the model), and the template ends with a direct read of one pool name (undefined reads as null). Oracle: reference model with the scoping rules of the statement. Excluded, as behaviour the statement leaves open: assigning to a name currently bound by an enclosing loop or macro parameter; a name first set inside a loop body is set at the very start of the body (so it is never read in iteration n+1 before being set); macro bodies only look at their parameters and their own names (m1, m2), which are never used outside macros. Non-trivial = at least one collision between a local and an outer name; distinct = statement sequence with names."
+	return "cases: seeded nestings (depth<=4) of set, set-capture, for (with and without key), if, filter sections and macro calls over a 4-name pool (a,b,c,d; some also given by the context, some holding null, false, 0 or the empty string) so that collisions between loop variables, macro parameters and outer variables are the norm. After every statement, at the start of every loop body and macro body, a probe prints which pool names are visible and their values, and (outside macro bodies) the complete sorted list of names the scope holds, so that nothing can be defined on the side (a registered function reading Context.Scope(), mirrored by the model), and the template ends with a direct read of one pool name (undefined reads as null). Plus 54 enumerated chains (child [-> middle] -> layout) in which the child, the middle template and the layout assign at their top level (plain and captured; before and after the block): what a child assigns outside its blocks is visible in its blocks and in the layout, the last assignment on the way up wins. Oracle: reference model with the scoping rules of the statement. Excluded, as behaviour the statement leaves open: assigning to a name currently bound by an enclosing loop or macro parameter; a name first set inside a loop body is set at the very start of the body (so it is never read in iteration n+1 before being set); macro bodies only look at their parameters and their own names (m1, m2), which are never used outside macros. Non-trivial = at least one collision between a local and an outer name; distinct = statement sequence with names."
 }
 
 func (p *c07) Assumptions() []string {
